@@ -387,6 +387,54 @@ func C08(p *ir.Program, r *report.R) {
 			}
 			r.Check("K8", "types.(*UTXOTransaction).checkTxInputKeys/verify-result-returned", p.InstrPos(e2), okR, "the verification result is the function result")
 		}
+		// the per-input verifier of the short-ring branch gives EVERY confidential input a verdict: a
+		// worker returns only after recording an error, after CheckRingSignature said yes, or because the
+		// input is not a confidential one. (A missing signature that is skipped lets the input through.)
+		cr := p.Func("types", "UTXOTransaction.checkRingctSignatures")
+		nW := 0
+		for _, w := range cr.AnonFuncs {
+			if len(ir.Calls(w, "xcrypto.CheckRingSignature")) == 0 {
+				continue
+			}
+			nW++
+			found, hit, tr := ir.FindPath(ir.PathQuery{From: ir.Entry(w), Target: ir.IsReturn,
+				Avoid: func(in ssa.Instruction) bool {
+					st, ok := in.(*ssa.Store)
+					return ok && strings.HasPrefix(ir.Render(st.Addr), "errs[") || ok && strings.HasPrefix(ir.RenderInstr(in), "store errs[")
+				},
+				AvoidEdge: func(atoms []string) bool {
+					for _, a := range atoms {
+						if strings.HasPrefix(a, "xcrypto.CheckRingSignature(") || ir.MatchAtom("!*.(\\*types.UTXOInput)#1", a) || strings.HasPrefix(a, "!") && strings.HasSuffix(a, ".(*types.UTXOInput)#1") {
+							return true
+						}
+					}
+					return false
+				}})
+			d := "a worker returns only with an error recorded, a positive CheckRingSignature, or a non-confidential input"
+			if found {
+				d += fmt.Sprintf(" — but %s is reached otherwise, blocks %v", p.InstrPos(hit), tr)
+			}
+			r.Check("K2", "types.(*UTXOTransaction).checkRingctSignatures/worker/verdict-for-every-input", p.Pos(w.Pos()), !found, d)
+		}
+		c.MustFind("K2", "types.(*UTXOTransaction).checkRingctSignatures/worker", cr, nW, "worker closure calling CheckRingSignature")
+		// the verdicts are all read before success is reported, and there is one slot per input
+		for _, rt := range ir.Returns(cr) {
+			if ir.Render(rt.Results[0]) != "nil" {
+				continue
+			}
+			fs := ir.FactsAt(rt.Instr)
+			if !ir.HasFact(fs, "eq(len(tx.RCTSig.RctSigBase.MixRing[0]),1)") {
+				continue // the MLSAG branch (VerRctNonSemanticsSimple)
+			}
+			r.Check("K2", "types.(*UTXOTransaction).checkRingctSignatures/short-ring/all-verdicts-read", p.InstrPos(rt.Instr), ir.HasFact(fs, "le(len(errs),*)"), "success only after the loop over all verdict slots finished")
+		}
+		okSlots := false
+		ir.Instrs(cr, func(in ssa.Instruction) {
+			if ms, ok := in.(*ssa.MakeSlice); ok && strings.Contains(ms.Type().String(), "error") {
+				okSlots = ir.Render(ms.Len) == "len(tx.Inputs)"
+			}
+		})
+		r.Check("K2", "types.(*UTXOTransaction).checkRingctSignatures/short-ring/one-slot-per-input", p.Pos(cr.Pos()), okSlots, "errs has len(tx.Inputs) slots")
 	}
 	_ = sort.Strings
 
